@@ -41,6 +41,40 @@ TRUTHY = [True, 1, "yes"]
 FALSY = [False, 0, ""]
 FAILS = ["ValueError", "ImportError", "SyntaxError", "ModuleNotFoundError", "ZeroDivisionError"]
 
+# How importing the package itself can fail although the package exists (its own __init__.py, or the __init__.py
+# of its parent package, does not run through).  "dotted": needs a parent package.
+PKG_FAIL_KINDS = {
+    "initfails_exc": False,         # raise ValueError(...)
+    "initfails_dep": False,         # import <a top-level module that does not exist>
+    "initfails_sub_rel": False,     # from .c14helper import X          -> ModuleNotFoundError(name=<pkg>.c14helper)
+    "initfails_sub_abs": False,     # import <pkg>.c14helper             -> the same
+    "initfails_sibling_abs": True,  # import <top>.c14helpers            -> ModuleNotFoundError(name=<top>.c14helpers)
+    "initfails_sibling_rel": True,  # from ..c14helpers import X         -> the same
+    "initfails_noname": False,      # raise ImportError(...)             -> e.name is None
+    "initfails_from_other": False,  # from os import c14_nothing         -> ImportError(name="os")
+    "topfails_exc": True,           # the parent's __init__ raises ValueError
+    "topfails_dep": True,           # the parent's __init__ imports a missing top-level module
+    "topfails_rel": True,           # the parent's __init__ does "from .c14x import y"
+}
+# Layouts on which the library as it is departs from the property (reported, see notes_c14.md); they are part of the
+# vocabulary (writer, model, oracle, replay) but are drawn by the generator only once their fingerprint is listed as
+# an open finding in known_findings.json.
+FP_FROMDOT = "package-import-error-naming-package-tolerated"
+FP_MISSING_MID = "missing-intermediate-package-raised"
+CANDIDATE_KINDS = {
+    "initfails_fromdot": FP_FROMDOT,     # from . import c14helper -> ImportError(name=<pkg>): taken for a missing package
+    "missing_mid": FP_MISSING_MID,       # <top>.mid.<pkg>, <top> exists, <top>.mid does not: raises although only a package is missing
+}
+
+
+def pkg_fails(kind):
+    """importing the package fails although the package exists"""
+    return kind in PKG_FAIL_KINDS or kind == "initfails_fromdot"
+
+
+def pkg_absent(kind):
+    return kind in ("missing", "missing_sub", "missing_mid")
+
 
 def gen_cls(r, cname, mnames, faulty):
     c = {"cname": cname, "mode": None, "mn_none": False, "disabled": None, "default": None, "raises": False}
@@ -114,9 +148,11 @@ def gen_layout(r, idx):
         pkg["kind"] = "missing_sub"
         pkg["dotted"] = True
         return pkg
-    if k < 0.065:
-        pkg["kind"] = r.choice(["initfails_exc", "initfails_dep"])
-    elif k < 0.15:
+    if k < 0.12:
+        pkg["kind"] = r.choice(sorted(PKG_FAIL_KINDS))
+        if PKG_FAIL_KINDS[pkg["kind"]]:
+            pkg["dotted"] = True
+    elif k < 0.2:
         pkg["namespace"] = True
     faulty = r.random() < 0.5
     nm = r.choice([0, 1, 1, 2, 2, 2, 2, 3, 3, 3, 4])
@@ -155,6 +191,18 @@ def r_dup(case, name):
     return sum(1 for _, c in needed_classes(case) if c["mode"] == name) > 1
 
 
+def gen_sel_timed(r, names, prev_choice):
+    """selection for a TimedRobot period: no valid "Auto Selector" string, the chooser selection differs from the
+    one of the previous period (another mode, or "None")"""
+    dash = r.choice([None, None, None, "nope", "", "None"])
+    if dash is not None and dash in names:
+        dash = None
+    pool = [n for n in names + ["None"] if n != prev_choice]
+    if prev_choice is None and r.random() < 0.4:
+        return dash, None
+    return dash, (r.choice(pool) if pool else "None")
+
+
 def gen_sel(r, names, chosen_before):
     k = r.random()
     if k < 0.55:
@@ -191,6 +239,23 @@ def gen_ops(r, case, base):
         ops.append(["disable"])
     nper = r.choice([0, 1, 1, 2, 2, 3])
     ended = False
+    if r.random() < 0.18:
+        # TimedRobot whose disabledInit does not (always) call disable(): start()/periodic() periods follow one
+        # another, the selection changes in between
+        prev = None
+        for p in range(r.choice([2, 2, 3, 4])):
+            dash, choice = gen_sel_timed(r, names, prev)
+            prev = choice if choice is not None else prev
+            ops.append(["start", dash, choice, r.choice(DTS)])
+            for _ in range(r.choice([0, 1, 1, 2, 3])):
+                ops.append(["periodic", r.choice(DTS)])
+            if r.random() < 0.3:
+                ops.append(["disable"])
+        if r.random() < 0.5:
+            ops.append(["disable"])
+        if r.random() < 0.3:
+            ops.append(["run", None, None, r.choice(DTS), r.choice([0, 1, 2]), 20000, "disable", None])
+        return ops
     for p in range(nper):
         dash, choice = gen_sel(r, names, chosen)
         chosen = chosen or choice is not None
@@ -208,6 +273,8 @@ def gen_ops(r, case, base):
                 d2, c2 = gen_sel(r, names, chosen)
                 chosen = chosen or c2 is not None
                 ops.append(["run", d2, c2, r.choice(DTS), r.choice([0, 1, 2]), 20000, "disable"])
+            if p < nper - 1 and r.random() < 0.15:
+                continue                                # period not followed by disable(): the next one just begins
             for _ in range(r.choice([1, 1, 1, 2])):
                 ops.append(["disable"])
             if r.random() < 0.25:
@@ -278,14 +345,45 @@ EDGE_CASES = [
       ["start", None, None, 0], ["periodic", 20000], ["disable"]]),
     (True, [("alpha", None, [("A", "one", None, None, False)])],
      [["run", "one", None, 0, 6, 5000, "robot_exit", ["hook", 2]]]),
+    # TimedRobot periods that are not followed by disable(), the chooser selection changed in between
+    (False, [("alpha", None, [("A", "one", None, True, False), ("B", "two", None, None, False), ("C", "three", None, None, False)])],
+     [["start", None, None, 0], ["periodic", 20000], ["periodic", 20000], ["disable"],
+      ["start", None, "two", 1000], ["periodic", 20000], ["periodic", 20000],
+      ["start", None, "three", 1000], ["periodic", 20000], ["periodic", 20000],
+      ["start", None, "None", 1000], ["periodic", 20000], ["disable"]]),
+    (False, [("alpha", None, [("A", "one", None, True, False), ("B", "two", None, None, False)])],
+     [["start", "nope", None, 0], ["periodic", 20000], ["start", "", "None", 500000], ["periodic", 1000],
+      ["run", None, "two", 0, 2, 20000, "disable"], ["start", None, "one", 0], ["start", None, "two", 0], ["periodic", 1]]),
+    (True, [("alpha", None, [("A", "one", None, None, False), ("B", "two", None, None, False)])],
+     [["start", None, "one", 0], ["run", None, "None", 1000, 2, 20000, "teleop"], ["periodic", 1000],
+      ["start", None, "two", 0], ["periodic", 0]]),
+    # the package exists, importing it fails: a module under its own top-level name is missing, ...
+    (False, [("alpha", None, [("A", "one", None, None, False)])], [], {"kind": "initfails_sub_rel"}),
+    (False, [("alpha", None, [("A", "one", None, None, False)])], [], {"kind": "initfails_sub_abs", "dotted": True}),
+    (False, [("alpha", None, [("A", "one", None, None, False)])], [], {"kind": "initfails_sibling_abs", "dotted": True}),
+    (False, [("alpha", None, [("A", "one", None, None, False)])], [], {"kind": "initfails_sibling_rel", "dotted": True}),
+    (True, [("alpha", None, [("A", "one", None, None, False)])],
+     [["start", None, None, 0], ["periodic", 1000], ["disable"]], {"kind": "initfails_sibling_abs", "dotted": True}),
+    (False, [], [], {"kind": "topfails_rel", "dotted": True}),
+    (False, [], [], {"kind": "topfails_dep", "dotted": True}),
+    (True, [], [], {"kind": "topfails_exc", "dotted": True}),
+    # ... an ImportError without a name, or one naming an unrelated module
+    (False, [], [], {"kind": "initfails_noname"}),
+    (False, [], [], {"kind": "initfails_from_other"}),
+    # ... and the packages that do not exist at all
+    (False, [], [["start", None, None, 0], ["disable"]], {"kind": "missing"}),
+    (False, [], [], {"kind": "missing", "dotted": True}),
+    (False, [], [], {"kind": "missing_sub", "dotted": True}),
 ]
 
 
 def edge_cases(base, start_idx):
     out = []
-    for k, (fms, mods, ops) in enumerate(EDGE_CASES):
+    for k, ec in enumerate(EDGE_CASES):
+        fms, mods, ops = ec[:3]
         pkg = {"kind": "present", "namespace": False, "dotted": False, "modules": [], "init_classes": [],
                "hidden": False, "txt": False, "subpkg": False, "name": "c14p%05d" % (start_idx + k)}
+        pkg.update(ec[3] if len(ec) > 3 else {})
         for stem, fail, cls in mods:
             pkg["modules"].append({"stem": stem, "fail": fail, "junk": False, "classes": [
                 {"cname": cn, "mode": mo, "mn_none": False, "disabled": di, "default": de, "raises": ra}
@@ -297,13 +395,94 @@ def edge_cases(base, start_idx):
 # ---------------------------------------------------------------------------
 # writing a layout to disk
 
+def pkg_top(pkg):
+    return pkg["name"] + "_top"
+
+
 def pkg_import_name(pkg):
     if pkg["kind"] == "missing_sub":
-        return pkg["name"] + "_top.sub"
-    return (pkg["name"] + "_top." + pkg["name"]) if pkg["dotted"] else pkg["name"]
+        return pkg_top(pkg) + ".sub"
+    if pkg["kind"] == "missing_mid":
+        return pkg_top(pkg) + ".mid." + pkg["name"]
+    return (pkg_top(pkg) + "." + pkg["name"]) if pkg["dotted"] else pkg["name"]
+
+
+def expected_import(pkg):
+    """what importlib.import_module(<the package>) is meant to do on this layout:
+    ["ok"] | ["importerror", e.name] | ["other"]"""
+    kind = pkg["kind"]
+    name = pkg_import_name(pkg)
+    top = pkg_top(pkg)
+    if kind == "present":
+        return ["ok"]
+    if kind == "missing":
+        return ["importerror", name.split(".")[0]]
+    if kind == "missing_sub":
+        return ["importerror", name]
+    if kind == "missing_mid":
+        return ["importerror", top + ".mid"]
+    if kind in ("initfails_exc", "topfails_exc"):
+        return ["other"]
+    if kind in ("initfails_dep", "topfails_dep"):
+        return ["importerror", "c14_no_such_dependency"]
+    if kind in ("initfails_sub_rel", "initfails_sub_abs"):
+        return ["importerror", name + ".c14helper"]
+    if kind in ("initfails_sibling_abs", "initfails_sibling_rel"):
+        return ["importerror", (top + ".c14helpers") if pkg["dotted"] else top]
+    if kind == "initfails_noname":
+        return ["importerror", None]
+    if kind == "initfails_from_other":
+        return ["importerror", "os"]
+    if kind == "topfails_rel":
+        return ["importerror", top + ".c14x"]
+    if kind == "initfails_fromdot":
+        return ["importerror", name]
+    return ["?"]
+
+
+def init_source(pkg):
+    """the package's own __init__.py"""
+    kind = pkg["kind"]
+    name = pkg_import_name(pkg)
+    src = "import c14_rt\n\n"
+    if kind == "initfails_exc":
+        src += "raise ValueError('c14-pkg-fail')\n"
+    elif kind == "initfails_dep":
+        src = "import c14_no_such_dependency\n" + src
+    elif kind == "initfails_sub_rel":
+        src += "from .c14helper import SOMETHING\n"
+    elif kind == "initfails_sub_abs":
+        src += "import %s.c14helper\n" % name
+    elif kind == "initfails_sibling_abs":
+        src += "import %s.c14helpers\n" % pkg_top(pkg)
+    elif kind == "initfails_sibling_rel":
+        src += ("from ..c14helpers import SOMETHING\n" if pkg["dotted"] else "import %s.c14helpers\n" % pkg_top(pkg))
+    elif kind == "initfails_noname":
+        src += "raise ImportError('c14-pkg-fail')\n"
+    elif kind == "initfails_from_other":
+        src += "from os import c14_nothing\n"
+    elif kind == "initfails_fromdot":
+        src += "from . import c14helper\n"
+    for c in pkg["init_classes"]:
+        src += cls_source("__init__", c)
+    return src
+
+
+def top_init_source(pkg):
+    """the __init__.py of the parent package of a dotted layout"""
+    kind = pkg["kind"]
+    if kind == "topfails_exc":
+        return "raise ValueError('c14-pkg-fail')\n"
+    if kind == "topfails_dep":
+        return "import c14_no_such_dependency\n"
+    if kind == "topfails_rel":
+        return "from .c14x import SOMETHING\n"
+    return ""
 
 
 def pkg_dir(pkg, base):
+    if pkg["kind"] == "missing_mid":
+        return os.path.join(base, pkg_top(pkg), "mid", pkg["name"])
     if pkg["dotted"]:
         return os.path.join(base, pkg["name"] + "_top", pkg["name"] if pkg["kind"] != "missing_sub" else "sub")
     return os.path.join(base, pkg["name"])
@@ -346,23 +525,22 @@ def write_package(pkg, base):
     shutil.rmtree(os.path.join(base, pkg["name"]), ignore_errors=True)
     if pkg["kind"] == "missing":
         return d
+    if pkg["kind"] == "missing_mid":
+        top = os.path.join(base, pkg_top(pkg))
+        os.makedirs(top, exist_ok=True)
+        open(os.path.join(top, "__init__.py"), "w").close()
+        return d
     if pkg["dotted"]:
         top = os.path.dirname(d)
         os.makedirs(top, exist_ok=True)
-        open(os.path.join(top, "__init__.py"), "w").close()
+        with open(os.path.join(top, "__init__.py"), "w") as f:
+            f.write(top_init_source(pkg))
         if pkg["kind"] == "missing_sub":
             return d
     os.makedirs(d, exist_ok=True)
-    if not pkg["namespace"]:
-        src = "import c14_rt\n\n"
-        if pkg["kind"] == "initfails_exc":
-            src += "raise ValueError('c14-pkg-fail')\n"
-        elif pkg["kind"] == "initfails_dep":
-            src = "import c14_no_such_dependency\n" + src
-        for c in pkg["init_classes"]:
-            src += cls_source("__init__", c)
+    if not pkg["namespace"] or pkg_fails(pkg["kind"]):
         with open(os.path.join(d, "__init__.py"), "w") as f:
-            f.write(src)
+            f.write(init_source(pkg))
     for m in pkg["modules"]:
         with open(os.path.join(d, m["stem"] + ".py"), "w") as f:
             f.write(module_source(m))
@@ -387,7 +565,7 @@ def write_package(pkg, base):
 def observed_files(pkg, base):
     """the *.py files of the package directory in directory order (what glob returns)."""
     d = pkg_dir(pkg, base)
-    if pkg["kind"] in ("missing", "missing_sub") or not os.path.isdir(d):
+    if pkg_absent(pkg["kind"]) or not os.path.isdir(d):
         return []
     return [os.path.join(d, n) for n in os.listdir(d)
             if n.endswith(".py") and not n.startswith(".") and os.path.isfile(os.path.join(d, n))]
@@ -406,16 +584,41 @@ def classify_exc(e):
         return 1
     if "c14-import-fail" in msg or isinstance(e, SyntaxError):
         return 2
-    if isinstance(e, ModuleNotFoundError) and e.name == "c14_no_such_dependency":
-        # raised by a module of the package, or by its __init__
+    if isinstance(e, ImportError):
+        # raised by a module of the package, by its __init__ (or its parent's), or by the import machinery
+        # itself on behalf of one of them
         tb = e.__traceback__
         files = []
         while tb is not None:
             files.append(tb.tb_frame.f_code.co_filename)
             tb = tb.tb_next
         files = [f for f in files if f.endswith(".py") and "c14p" in f]
-        return 1 if files and files[-1].endswith("__init__.py") else 2
+        if files:
+            return 1 if files[-1].endswith("__init__.py") else 2
+        if isinstance(e.name, str) and e.name.startswith("c14p"):
+            return 1        # no frame of the layout: the package itself (or a parent of it) was not found
     return 9
+
+
+def forget_modules(name):
+    top = name.split(".")[0]
+    for mname in [k for k in sys.modules if k == top or k.startswith(top + ".")]:
+        del sys.modules[mname]
+
+
+def probe_import(name):
+    """what importlib.import_module(name) does -- the input of the model's test on e.name, observed like the glob
+    order: ["ok"] | ["importerror", e.name] | ["other"]"""
+    import importlib
+    try:
+        importlib.import_module(name)
+        r = ["ok"]
+    except ImportError as e:
+        r = ["importerror", e.name if isinstance(e.name, str) else None]
+    except Exception:
+        r = ["other"]
+    forget_modules(name)
+    return r
 
 
 class Driver:
@@ -594,6 +797,7 @@ class Driver:
         self.reset_nt()
         d = write_package(pkg, self.base)
         importlib.invalidate_caches()
+        imp = probe_import(pkg_import_name(pkg))
         files = observed_files(pkg, self.base)
         self.DS.setFmsAttached(bool(case["fms"]))
         self.DS.setEnabled(False)
@@ -601,7 +805,7 @@ class Driver:
         self.DS.notifyNewData()
         wpilib.DriverStation.refreshData()
         del self.log[:]
-        obs = {"files": files, "err": 0, "exc": None, "ctors": [], "modes": [], "options": [], "default": "",
+        obs = {"imp": imp, "files": files, "err": 0, "exc": None, "ctors": [], "modes": [], "options": [], "default": "",
                "events": [], "attrerr": False, "mops": [], "problem": None}
         pdir = pkg_dir(pkg, self.base)
 
@@ -676,9 +880,7 @@ class Driver:
                 else:
                     obs["events"].append([3, [fpath(stem), cn], 0])      # a constructor call after start-up
         # forget the package so that nothing is cached between cases
-        top = name.split(".")[0]
-        for mname in [k for k in sys.modules if k == top or k.startswith(top + ".")]:
-            del sys.modules[mname]
+        forget_modules(name)
         import shutil
         shutil.rmtree(os.path.join(self.base, pkg["name"] + "_top"), ignore_errors=True)
         shutil.rmtree(os.path.join(self.base, pkg["name"]), ignore_errors=True)
@@ -746,11 +948,14 @@ def cls_term(c):
 
 
 def package_term(case, obs):
+    """(package name, what import_module(name) did): the model decides what that means"""
     pkg = case["pkg"]
-    if pkg["kind"] in ("missing", "missing_sub"):
-        return "PkgMissing"
-    if pkg["kind"].startswith("initfails"):
-        return "PkgInitFails"
+    name = q(pkg_import_name(pkg))
+    imp = obs["imp"]
+    if imp[0] == "importerror":
+        return "%s, (ImportRaisesImportError %s)" % (name, coq_opt(imp[1], q))
+    if imp[0] == "other":
+        return "%s, ImportRaisesOther" % name
     by_stem = {m["stem"]: m for m in pkg["modules"]}
     mods = []
     for f in obs["files"]:
@@ -763,7 +968,7 @@ def package_term(case, obs):
         cl = sorted(cl, key=lambda c: c["cname"])          # inspect.getmembers order
         mods.append("mkMod %s %s %s %s" % (q(stem), q(f), coq_bool(fail),
                                            coq_list([cls_term(c) for c in (cl if not fail else [])])))
-    return "(PkgPresent %s)" % coq_list(mods)
+    return "%s, (Imported %s)" % (name, coq_list(mods))
 
 
 def sel_term(dash, choice):
@@ -846,19 +1051,31 @@ def oracle(case, obs, base):
     ndef = sum(1 for _, c in need if truth(c["default"]))
     import_fault = kind == "present" and any(m["fail"] for m in pkg["modules"])
     ctor_fault = any(c["raises"] for _, c in need)
-    initfail = kind.startswith("initfails")
+    initfail = pkg_fails(kind)
     any_fault = import_fault or ctor_fault or dup or ndef > 1 or initfail
     raised = obs["err"] != 0
+    if obs.get("imp") is not None and obs["imp"] != expected_import(pkg):
+        return v        # the layout on disk is not the one its kind describes (reported as a broken obligation)
     if obs["err"] == 9:
         v.append(("unexpected-exception", "AutonomousModeSelector(...) raised an unrelated exception: %s" % obs["exc"]))
         return v
     if not fms:
         if any_fault and not raised:
             what = ("duplicate-not-raised" if dup else "several-defaults-not-raised" if ndef > 1 else
-                    "import-failure-not-raised" if import_fault else "ctor-failure-not-raised" if ctor_fault else "pkg")
-            v.append((what, "no FMS, layout has a start-up fault (%s) but the constructor did not raise" % what))
+                    "import-failure-not-raised" if import_fault else "ctor-failure-not-raised" if ctor_fault else
+                    CANDIDATE_KINDS.get(kind, "package-import-failure-not-raised"))
+            text = "no FMS, layout has a start-up fault (%s) but the constructor did not raise" % what
+            if initfail:
+                text = ("no FMS, the package %s exists but importing it fails (%s: import_module raises %s), and "
+                        "AutonomousModeSelector() did not raise: a failing import was taken for a missing package"
+                        % (pkg_import_name(pkg), kind, import_text(obs.get("imp"))))
+            v.append((what, text))
         if not any_fault and raised:
-            v.append(("raised-without-fault", "no FMS, fault-free layout, constructor raised %s" % obs["exc"]))
+            if kind == "missing_mid":
+                v.append((FP_MISSING_MID, "no FMS, the only thing wrong is that the package %s does not exist (its parent "
+                          "%s.mid is missing), yet the constructor raised %s" % (pkg_import_name(pkg), pkg_top(pkg), obs["exc"])))
+            else:
+                v.append(("raised-without-fault", "no FMS, fault-free layout, constructor raised %s" % obs["exc"]))
     else:
         if raised:
             v.append(("fms-raised", "FMS attached but the constructor raised %s" % obs["exc"]))
@@ -927,6 +1144,24 @@ def oracle(case, obs, base):
     return v
 
 
+def import_text(imp):
+    if not imp:
+        return "?"
+    if imp[0] == "importerror":
+        return "ImportError(name=%r)" % (imp[1],)
+    return {"ok": "nothing", "other": "an exception other than ImportError"}.get(imp[0], imp[0])
+
+
+def timer_ready(mops):
+    """periodic() is not called before the first start()"""
+    for o in mops:
+        if o[0] == "start":
+            return True
+        if o[0] == "periodic":
+            return False
+    return True
+
+
 def wf_ops(mops):
     ph = "fresh"
     for o in mops:
@@ -949,10 +1184,10 @@ def wf_ops(mops):
 def oracle_lifecycle(obs, modes):
     v = []
     mops = obs["mops"]
-    if not wf_ops(mops):
-        return v
+    if not timer_ready(mops):
+        return v        # periodic() before the first start(): the property does not say what happens
     if obs["attrerr"]:
-        v.append(("attribute-error", "periodic() raised AttributeError in a well-formed call sequence"))
+        v.append(("attribute-error", "periodic() raised AttributeError although start() had been called before"))
         return v
 
     def chosen(dash, choice):
@@ -963,7 +1198,10 @@ def oracle_lifecycle(obs, modes):
             return modes[name]
         return None
 
-    # expected shape: per period E, I*n, D (with the elapsed time of every iteration)
+    # expected shape: per period E, I*n, and D when a disable() ends it (with the elapsed time of every iteration).
+    # A period begins with start() or run(), whatever was going on before: the mode chosen THEN is the only one
+    # that may hear anything until the next period begins.  (A start()/periodic() period that is not followed by
+    # disable() simply ends there -- the class documentation allows that -- and its mode gets no on_disable.)
     exp = []        # (code, ident, period index, expected elapsed us)
     cur = None
     t_start = 0
@@ -1004,6 +1242,7 @@ def oracle_lifecycle(obs, modes):
                             closed = True
                 if not closed:
                     exp.append((2, m, per, 0))
+            cur = None          # run() ends with its own disable(): nothing is active afterwards
     got = [(k, i) for k, i, t in obs["events"]]
     want = [(k, i) for k, i, p, _ in exp]
     if got != want:
